@@ -6,6 +6,7 @@ import (
 	"context"
 	"errors"
 	"strconv"
+	"sync"
 	"time"
 
 	"github.com/ipfs/go-cid"
@@ -264,14 +265,24 @@ func VfFullRTFindProviders() {
 		localNamed[cand[i]] = true
 	}
 	named := map[peer.ID]bool{}
-	answered := 0
+	answered, issued := 0, 0
+	allOut := make(chan struct{})
+	var mu sync.Mutex
 	snd.reply = func(rctx context.Context, p peer.ID, req *dht_pb.Message) (*dht_pb.Message, error) {
 		if req.Type != dht_pb.Message_GET_PROVIDERS {
 			return nil, errors.New("unexpected request")
 		}
-		if rctx.Err() != nil {
-			return nil, rctx.Err() // an abandoned request is not answered
+		// every crawled peer is asked at once: answers start when all requests are
+		// out (this also makes the native replay independent of goroutine start order)
+		mu.Lock()
+		issued++
+		if issued == P {
+			close(allOut)
 		}
+		mu.Unlock()
+		<-allOut
+		mu.Lock()
+		defer mu.Unlock()
 		if vfBool("peer.fails") {
 			return nil, errors.New("rpc failed")
 		}
